@@ -18,7 +18,7 @@ EXTENDS Naturals, Sequences, FiniteSets, TLC
 CONSTANTS MaxEv,     \* simulator events explored
           MaxInj,    \* injected events explored
           MaxDown,   \* region teardowns explored
-          Batches    \* which response shapes the simulator uses (subset of 1..6)
+          Batches    \* which response shapes the simulator uses (subset of 1..7)
 
 VARIABLES
     (* proxy *)   queue, cache, regs, seen,
@@ -32,19 +32,28 @@ None == [k |-> "undef"]                       \* the protocol's no-events form
 Pl(id, evs) == [k |-> "events", id |-> id, evs |-> evs]
 IsInj(e) == e > 900
 
-(* Response shapes: kind of every event.  "p" plain; "ES" EnableSimulator, "EAC"           *)
-(* EstablishAgentCommunication, "TF" TeleportFinish announce region .reg                   *)
-P == [k |-> "p", reg |-> 0]
+(* Response shapes: kind of every event.                                                   *)
+(*  "p"  an event the proxy has no message template for (passed on as an opaque map);      *)
+(*  "tc" / "to" / "te"  an event of a templated message (one with variables the proxy has  *)
+(*       to unpack, U64 ..) whose LLSD body is complete / legitimately OMITS the variable-  *)
+(*       count block holding those variables / carries that block as an empty list;        *)
+(*  "ES" EnableSimulator, "EAC" EstablishAgentCommunication, "TF" TeleportFinish announce   *)
+(*       region .reg.                                                                      *)
+(* How (and whether) the proxy decodes an event never changes how the response is          *)
+(* processed: all non-announcing kinds are the same to every action below.                 *)
+Ev(k) == [k |-> k, reg |-> 0]
+P == Ev("p")
 Ann(k, x) == [k |-> k, reg |-> x]
-Batch(i) == CASE i = 1 -> <<P>>
-              [] i = 2 -> <<P, P>>
+Batch(i) == CASE i = 1 -> <<Ev("to")>>
+              [] i = 2 -> <<P, Ev("to")>>
               [] i = 3 -> <<Ann("ES", 2)>>
-              [] i = 4 -> <<Ann("EAC", 2), P>>
-              [] i = 5 -> <<P, Ann("TF", 3)>>
+              [] i = 4 -> <<Ann("EAC", 2), Ev("te")>>
+              [] i = 5 -> <<Ev("to"), Ann("TF", 3)>>
               [] i = 6 -> <<Ann("ES", 2), Ann("TF", 2)>>
-(* Environment: addons swallow only plain events (what a swallowed announcement means for   *)
-(* registration is left open by the property).                                              *)
-Swallowable(b) == {i \in DOMAIN b : b[i].k = "p"}
+              [] i = 7 -> <<Ev("tc"), P>>
+(* Environment: addons swallow only events that announce no region (what a swallowed        *)
+(* announcement means for registration is left open by the property).                       *)
+Swallowable(b) == {i \in DOMAIN b : b[i].reg = 0}
 
 Init == /\ queue = <<>> /\ cache = [ack |-> 0, pl |-> None] /\ regs = <<>> /\ seen = <<>>
         /\ nev = 0 /\ sid = 0 /\ infl = [on |-> FALSE, ack |-> 0]
@@ -118,7 +127,7 @@ Teardown == /\ ndown < MaxDown /\ ndown' = ndown + 1
             /\ UNCHANGED <<regs, seen, nev, sid, got, ninj, sentOK, announced>>
 
 Next == \/ PollFwd \/ \E lost \in BOOLEAN : PollCached(lost)
-        \/ \E i \in 1..6 : \E sw \in SUBSET (1..2) : \E lost \in BOOLEAN : SimRespond(i, sw, lost)
+        \/ \E i \in 1..7 : \E sw \in SUBSET (1..2) : \E lost \in BOOLEAN : SimRespond(i, sw, lost)
         \/ (\E kind \in FailKinds : SimFail(kind)) \/ Inject \/ Teardown
 Spec == Init /\ [][Next]_vars
 
